@@ -170,8 +170,13 @@ class EdgeQLPathInfo(Base):
     # Whether the node represents a distinct set.
     is_distinct: bool = True
 
-    # A subset of paths necessary to perform joining.
-    path_bonds: typing.Set[tuple[irast.PathId, bool]] = ast.field(factory=set)
+    # A subset of paths necessary to perform joining.  This is an
+    # insertion-ordered set (a dict with None values): join conditions are
+    # generated by iterating over it, and path ids of expressions hash
+    # differently in every compilation.
+    path_bonds: typing.Dict[
+        tuple[irast.PathId, bool], None
+    ] = ast.field(factory=dict)
 
     # Whether to ignore namespaces when looking at path outputs.
     # TODO: Maybe instead, Relation should have a way of specifying
